@@ -68,6 +68,8 @@ def tasks(tier, seed):
             out.append({"fn": "simple_ops", "kwargs": {"kind": kind, "pre": pre}, "label": f"{kind}/empty_read/{pre}"})
         for a, b in itertools.product(("empty", "full"), repeat=2):
             out.append({"fn": "equality", "kwargs": {"kind": kind, "a": a, "b": b, "other": kind}, "label": f"{kind}/eq/{a},{b}"})
+        for a, b in itertools.product(("empty", "full"), repeat=2):
+            out.append({"fn": "equality_shapes", "kwargs": {"kind": kind, "a": a, "b": b}, "label": f"{kind}/eq_shapes/{a},{b}"})
         out.append({"fn": "equality", "kwargs": {"kind": kind, "a": "full", "b": "full", "other": "signal" if kind != "signal" else "pixel"},
                     "label": f"{kind}/eq/other_kind"})
     for op in ("set", "update", "iadd", "add"):
@@ -344,6 +346,27 @@ def simple_ops(kind, pre):
             vx.prove("C13/pixel/read_empty_raises", not r)
 
 
+def equality_shapes(kind, a, b):
+    """Two containers of the same kind built for detectors of different shapes are never equal - empty or not."""
+    from pyxel.detectors import CCDGeometry
+
+    other_shape = (SHAPE[1], SHAPE[0]) if SHAPE[0] != SHAPE[1] else (SHAPE[0] + 1, SHAPE[1])
+    with Patch() as p:
+        p.numpy(*DATA_MODULES)
+        ca, _ = _make(kind, a, "xa")
+        cb = _types(kind)(CCDGeometry(row=other_shape[0], col=other_shape[1]))
+        if b == "full":
+            k = "int" if HOME[kind].startswith("u") else "real"
+            cb._array = sym_array("xb", other_shape, kind=k, dtype=HOME[kind])
+        res = []
+        for l, r in ((ca, cb), (cb, ca)):
+            try:
+                res.append(bool(l == r))
+            except Exception as e:  # noqa: BLE001
+                res.append(e)
+    vx.prove(f"C13/{kind}/eq_other_shape", res == [False, False], case=f"{a},{b}", got=repr(res)[:80])
+
+
 def equality(kind, a, b, other):
     with Patch() as p:
         p.numpy(*DATA_MODULES)
@@ -521,6 +544,22 @@ def replay(oid, kwargs, model, data):
         if "keeps_nonnegative" in oid and st is not None:
             bad = bad or any(v >= 0 and not (s_ == v) for s_, v in zip(st.ravel(), arr.ravel()))
         return bad, {"assigned": arr.tolist(), "stored": None if st is None else st.tolist()}
+    if fn == "equality_shapes":
+        from pyxel.detectors import CCDGeometry
+
+        other_shape = (SHAPE[1], SHAPE[0]) if SHAPE[0] != SHAPE[1] else (SHAPE[0] + 1, SHAPE[1])
+        ca, cb = cls(_geo()), cls(CCDGeometry(row=other_shape[0], col=other_shape[1]))
+        if kwargs["a"] == "full":
+            ca._array = _cval(model, "xa", HOME[kind], SHAPE, 1)
+        if kwargs["b"] == "full":
+            cb._array = _cval(model, "xb", HOME[kind], other_shape, 1)
+        res = []
+        for l, r in ((ca, cb), (cb, ca)):
+            try:
+                res.append(bool(l == r))
+            except Exception as e:  # noqa: BLE001
+                res.append(repr(e))
+        return res != [False, False], {"shapes": [list(SHAPE), list(other_shape)], "a == b, b == a": res}
     if fn == "equality":
         other = kwargs["other"]
         ca, cb = cls(_geo()), _types(other)(_geo())
